@@ -212,3 +212,52 @@ func Pointees[E any]() (*E, *E) {
 func BytesOf(p unsafe.Pointer, n uintptr) []byte {
 	return append([]byte(nil), unsafe.Slice((*byte)(p), n)...)
 }
+
+// Maps that differ in the key type only, channels that differ in the direction only: value 0 = nil, 1 and 2 = two
+// distinct maps / channels, told apart by identity.
+var (
+	MSI1, MSI2   = map[string]int{"a": 1}, map[string]int{"b": 2}
+	MII1, MII2   = map[int]int{1: 1}, map[int]int{2: 2}
+	MI8I1, MI8I2 = map[int8]int{1: 1}, map[int8]int{2: 2}
+	C1, C2       = make(chan int, 1), make(chan int, 1)
+)
+
+func mapID(m any) uintptr { return reflect.ValueOf(m).Pointer() }
+
+func MkMapSI(k int) map[string]int { return [3]map[string]int{nil, MSI1, MSI2}[k%3] }
+func IdxMapSI(v map[string]int) int {
+	return idx3(v == nil, mapID(v) == mapID(MSI1), mapID(v) == mapID(MSI2))
+}
+func MkMapII(k int) map[int]int { return [3]map[int]int{nil, MII1, MII2}[k%3] }
+func IdxMapII(v map[int]int) int {
+	return idx3(v == nil, mapID(v) == mapID(MII1), mapID(v) == mapID(MII2))
+}
+func MkMapI8I(k int) map[int8]int { return [3]map[int8]int{nil, MI8I1, MI8I2}[k%3] }
+func IdxMapI8I(v map[int8]int) int {
+	return idx3(v == nil, mapID(v) == mapID(MI8I1), mapID(v) == mapID(MI8I2))
+}
+func MkChanB(k int) chan int    { return [3]chan int{nil, C1, C2}[k%3] }
+func IdxChanB(v chan int) int   { return idx3(v == nil, v == C1, v == C2) }
+func MkChanR(k int) <-chan int  { return [3]<-chan int{nil, C1, C2}[k%3] }
+func IdxChanR(v <-chan int) int { return idx3(v == nil, v == (<-chan int)(C1), v == (<-chan int)(C2)) }
+func MkChanS(k int) chan<- int  { return [3]chan<- int{nil, C1, C2}[k%3] }
+func IdxChanS(v chan<- int) int { return idx3(v == nil, v == (chan<- int)(C1), v == (chan<- int)(C2)) }
+func MkUint8(k int) uint8       { return [3]uint8{0, 0x11, 0xFE}[k%3] }
+func IdxUint8(v uint8) int      { return idx3(v == 0, v == 0x11, v == 0xFE) }
+
+// Defined types over predeclared ones: identical memory layout, different types.
+type (
+	Label string
+	Tag   string
+	Byte8 uint8
+	Count int64
+)
+
+func MkLabel(k int) Label  { return Label(MkString(k)) }
+func IdxLabel(v Label) int { return IdxString(string(v)) }
+func MkTag(k int) Tag      { return Tag(MkString(k)) }
+func IdxTag(v Tag) int     { return IdxString(string(v)) }
+func MkByte8(k int) Byte8  { return Byte8(MkUint8(k)) }
+func IdxByte8(v Byte8) int { return IdxUint8(uint8(v)) }
+func MkCount(k int) Count  { return Count(MkInt64(k)) }
+func IdxCount(v Count) int { return IdxInt64(int64(v)) }
